@@ -40,4 +40,26 @@ def lostUpdateSegs : List Seg :=
   [{ status := 1, sel := some selA }, { status := 1, sel := none },
    { status := 2, sel := some selBC }, { status := 3, sel := some selA }]
 
+/-! ### the table-style witness `corpus/C10/table_sentence_recomposed.json`
+input `dcccccc`; table rows 天/要 `dcc`, 土 `ccc`, 方 `c`, 低/擦/萌 `d` (texts abbreviated to one byte each) -/
+
+def cDcc : Bytes := [100, 99, 99]
+def cCcc : Bytes := [99, 99, 99]
+def cC : Bytes := [99]
+def eTian : Entry := { text := [1], code := [cDcc] }
+def eTu : Entry := { text := [2], code := [cCcc] }
+def eFang : Entry := { text := [3], code := [cC] }
+/-- the composed sentence 天土方 the user commits (a table-style sentence has no code of its own) -/
+def selSentence : Sel :=
+  { recognized := true, entry := { text := [1, 2, 3], code := [] }, comps := some [eTian, eTu, eFang] }
+def sentenceSegs : List Seg := [{ status := 3, sel := some selSentence }]
+def sys (t : UInt8) : Cand := { text := [t], user := false, sentence := false }
+/-- table entries of the prefixes `dcc` (天, 要) and `d` (低, 擦, 萌); the other prefixes have none -/
+def sysDcc : List Cand := [sys 1, sys 4]
+def sysD : List Cand := [sys 5, sys 6, sys 7]
+/-- the list for `dcccccc` out of a user db, given what sentence composition (Poet — outside the model) answers -/
+def witnessList (db : Db Unit) (sentence : Bytes) : List Cand :=
+  tableSentenceList (some sentence)
+    [(sortByWeight (userExact unitOps db 1 [cDcc]), sysDcc), (sortByWeight (userExact unitOps db 1 [[100]]), sysD)]
+
 end RimeModel.C10.Examples
